@@ -549,7 +549,8 @@ def wrap_val(ctx, T, op, method, need, result_of, depth, tail):
         ctx.multi_call += 1
     # a block capture inside a wrapper is borrowed by the (non-move) wrapper closure: the closure must not
     # outlive the step (lazy iterator adaptors in the spawn kinds) nor be required to be 'static (async kinds)
-    if ctx.is_async or multi:
+    lazy_closure = multi and result_of(Opt(TOK))[0] in ('Iter', 'Str')      # the wrapper closure is stored in a lazy adaptor
+    if ctx.is_async or lazy_closure:
         ctx.no_caps += 1
     try:
         if isinstance(need, tuple):
@@ -566,7 +567,7 @@ def wrap_val(ctx, T, op, method, need, result_of, depth, tail):
     finally:
         if multi:
             ctx.multi_call -= 1
-        if ctx.is_async or multi:
+        if ctx.is_async or lazy_closure:
             ctx.no_caps -= 1
     a = Act(op, 'method', method, inner=inner, close=not open_tail)
     return (a, result_of(u))
@@ -1826,10 +1827,16 @@ def slice_programs(slice_name, tier, master_seed, base_id):
     n_random = {'quick': 48, 'thorough': 300}[tier]
     i = 0
 
-    def add(profile, family, tag, **kw):
+    def add(profile, family, tag, require=None, **kw):
+        """require: substring the macro body must contain (systematic skeleton entries); the generator is re-seeded until it does"""
         nonlocal i
         pid = base_id + i
-        progs.append(gen_program(pid, slice_name, profile, family, subseed(master_seed, slice_name, tag, i), **kw))
+        pr = None
+        for attempt in range(400 if require else 1):
+            pr = gen_program(pid, slice_name, profile, family, subseed(master_seed, slice_name, tag, i, attempt), **kw)
+            if require is None or (require(pr.text()) if callable(require) else require in pr.text()):
+                break
+        progs.append(pr)
         i += 1
 
     fams = FAMILIES if slice_name != 'try' else [('sync', True), ('async', True)]
@@ -1841,12 +1848,56 @@ def slice_programs(slice_name, tier, master_seed, base_id):
                 p['ops'] = {o: (8.0 if o == op else 0.6) for o in OP_NAMES}
                 p['wrappers'] = 0.1
                 add(p, fam, 'sk-' + op)
+    if slice_name in ('ops', 'steps'):
+        # skeleton: a block capture on (nearly) every operand of every operand-taking operator, each operator emphasised once
+        for fam in fams:
+            for op in ['map', 'and_then', 'filter', 'then', 'or', 'or_else', 'map_err', 'chain', 'find_map', 'filter_map', 'partition',
+                       'fold', 'try_fold', 'find', 'zip', 'inspect']:
+                p = dict(prof)
+                p['ops'] = {o: (8.0 if o == op else 0.5) for o in OP_NAMES}
+                p['captures'] = 0.9
+                p['closures'] = 0.0
+                p['turbofish'] = 0.0
+                p['wrappers'] = 0.05
+                p['acts'] = (2, 5) if slice_name == 'ops' else (1, 3)
+                if slice_name == 'steps':
+                    p['depth_profile'] = (lambda rng, nb: [rng.randint(1, 3) for _ in range(nb)])
+                    p['branches'] = (2, 3)
+                pat = {'map': '|> {', 'and_then': '=> {', 'filter': '?> {', 'then': '-> {', 'or': '<| {', 'or_else': '<= {', 'map_err': '!> {',
+                       'chain': '>@> {', 'find_map': '?|>@ {', 'filter_map': '?|> {', 'partition': '?&!> {', 'fold': '^@ {', 'try_fold': '?^@ {',
+                       'find': '?@ {', 'zip': '>^> {', 'inspect': '?? {'}[op]
+                add(p, fam, 'sk-cap-' + op, require=pat)
+                if op in ('fold', 'try_fold'):
+                    # second operand of fold / try_fold captured as well
+                    add(p, fam, 'sk-cap2-' + op, require='}, {')
     if slice_name == 'wrap':
         for fam in fams:
             for op in WRAP_NAMES:
                 p = dict(prof)
                 p['ops'] = {o: (10.0 if o == op else 0.5) for o in WRAP_NAMES}
                 add(p, fam, 'sk-' + op)
+        # a block capture INSIDE each wrapper operator (where the wrapper closure is not stored in a lazy adaptor / required 'static)
+        optok = {'map_wrap': '|> >>>', 'and_then_wrap': '=> >>>', 'filter_wrap': '?> >>>', 'inspect_wrap': '?? >>>', 'find_wrap': '?@ >>>',
+                 'find_map_wrap': '?|>@ >>>', 'partition_wrap': '?&!> >>>', 'or_else_wrap': '<= >>>', 'map_err_wrap': '!> >>>'}
+        for fam in [f for f in fams if f[0] == 'sync']:
+            for op, tok in optok.items():
+                p = dict(prof)
+                p['ops'] = {o: (10.0 if o == op else 0.5) for o in WRAP_NAMES}
+                p['captures'] = 0.9
+                p['closures'] = 0.0
+                p['turbofish'] = 0.0
+
+                def req(text, tok=tok):
+                    j = text.find(tok)
+                    while j >= 0:
+                        rest = text[j + len(tok):]
+                        end = rest.find('<<<')
+                        seg = rest if end < 0 else rest[:end]
+                        if '{ w::cap(' in seg or '{ w::snap(' in seg:
+                            return True
+                        j = text.find(tok, j + 1)
+                    return False
+                add(p, fam, 'sk-capin-' + op, require=req)
     if slice_name in ('steps', 'try', 'handler'):
         profiles = [(1, 3), (3, 1), (2, 1, 3), (1, 2, 2), (3, 2, 1), (2, 2), (1, 1, 2), (4, 1), (1, 4, 2, 3)]
         for fam in fams:
